@@ -15,7 +15,7 @@ UNITS = {
     'routing': {'template': 'units/routing/unit.rs', 'serves': ['C16'], 'min_verified': 65},
     'votor': {'template': 'units/votor/unit.rs', 'serves': ['C05', 'C18'], 'min_verified': 60},
     'parent_ready': {'template': 'units/parent_ready/unit.rs', 'serves': ['C07'], 'min_verified': 64},
-    'repair': {'template': 'units/repair/unit.rs', 'serves': ['C14', 'C15', 'C10'], 'min_verified': 31},
+    'repair': {'template': 'units/repair/unit.rs', 'serves': ['C14', 'C15', 'C10'], 'min_verified': 32},
     'producer': {'template': 'units/producer/unit.rs', 'serves': ['C10'], 'min_verified': 24},
     'deshred': {'template': 'units/deshred/unit.rs', 'serves': ['C11', 'C13'], 'min_verified': 12},
     'ingest': {'template': 'units/ingest/unit.rs', 'serves': ['C12', 'C13', 'C16', 'C14', 'C10'], 'min_verified': 21},
